@@ -8,7 +8,7 @@ import numpy as np
 from glue.core import Data
 from glue.core.exceptions import IncompatibleAttribute
 from glue.core.roi import RectangularROI
-from glue.core.subset import ElementSubsetState, RangeSubsetState, SubsetState, roi_to_subset_state
+from glue.core.subset import ElementSubsetState, MultiOrState, RangeSubsetState, SubsetState, roi_to_subset_state
 from glue.core.subset_group import GroupedSubset
 from glue.core.visual import VisualAttributes
 from glue.core import edit_subset_mode as esm
@@ -50,7 +50,11 @@ STATE_VARIANTS = [
     ["ineq", "d2_x", ">", 2.0],
     ["and", ["elem", [0, 1, 3]], ["ineq", "d1_w", "<", 3.0]],
     ["elem", [3]],
+    # states that hold their operands by reference in a list (MultiOrState.copy() shares that list)
+    ["multi_or", [["ineq", "d0_x", ">", 3.5], ["elem", [0]], ["ineq", "d1_x", "<", 1.5]]],
+    ["multi_or", [["elem", [1]], ["elem", [2]]]],
 ]
+MULTI_VARIANTS = [10, 11]
 
 
 def build_state(desc, cid):
@@ -69,6 +73,8 @@ def build_state(desc, cid):
                                    x_att=cid(desc[1]), y_att=cid(desc[2]))
     if k == "empty":
         return SubsetState()
+    if k == "multi_or":
+        return MultiOrState([build_state(x, cid) for x in desc[1]])
     if k == "not":
         return ~build_state(desc[1], cid)
     if k == "or":
@@ -237,6 +243,55 @@ def mask_of(subset):
     return [list(m.shape), m.astype(int).ravel().tolist()]
 
 
+def _simple(v):
+    if isinstance(v, (int, float, str, bool)) or v is None:
+        return v
+    if hasattr(v, "label") and not isinstance(v, SubsetState):
+        return "cid:%s" % (v.label,)
+    if callable(v):
+        return getattr(v, "__name__", "callable")
+    if isinstance(v, (list, tuple)) and len(v) <= 16 and all(isinstance(x, (int, float)) for x in v):
+        return list(v)
+    return type(v).__name__
+
+
+def state_fingerprint(state, depth=0):
+    """Structure of a subset-state tree through public attributes: class names, operands (state1 / state2), the members
+    of a MultiOrState (their number and their own structure) and the simple parameters of leaves.  Defeats glue's mask
+    memo: a state object that was changed in place keeps returning its old mask, but not its old structure."""
+    if depth > 200:
+        return "..."
+    name = type(state).__name__
+    members = getattr(state, "states", None)
+    if isinstance(members, (list, tuple)):
+        return [name, len(members), [state_fingerprint(m, depth + 1) for m in members]]
+    out = [name]
+    for a in ("state1", "state2"):
+        sub = getattr(state, a, None)
+        if isinstance(sub, SubsetState):
+            out.append(state_fingerprint(sub, depth + 1))
+    for a in ("lo", "hi", "att", "left", "right", "operator", "indices", "xatt", "yatt"):
+        if hasattr(state, a):
+            try:
+                out.append([a, _simple(getattr(state, a))])
+            except Exception:
+                out.append([a, "<unreadable>"])
+    return out
+
+
+def multi_member_count(fp):
+    """Total number of MultiOrState members in a fingerprint."""
+    if not isinstance(fp, list):
+        return 0
+    n = 0
+    if len(fp) == 3 and isinstance(fp[1], int) and isinstance(fp[2], list) and isinstance(fp[0], str):
+        n += fp[1]
+    for x in fp:
+        if isinstance(x, list):
+            n += multi_member_count(x)
+    return n
+
+
 def snapshot(dc, names, edit_mode):
     """(strict, cosmetic) description of the session state named in C13: datasets, groups in
     order with the selection of every member as a mask, the subset -> group map of every
@@ -253,7 +308,7 @@ def snapshot(dc, names, edit_mode):
                         for s in g.subsets)
         # subsets the group lists but that are attached to nothing are not session state a user can see
         listed = [x for x in listed if x[1]]
-        gl.append({"members": members, "listed": listed})
+        gl.append({"members": members, "listed": listed, "state_tree": state_fingerprint(g.subset_state)})
     foreign = {}
     for d in datasets:
         n = sum(1 for s in getattr(d, "subsets", ()) if not is_in(getattr(s, "group", None), groups))
@@ -282,6 +337,8 @@ def diff_fields(a, b, ignore=()):
         out.append("member_masks")
     if any(x["listed"] != y["listed"] for x, y in zip(a["groups"], b["groups"])):
         out.append("group_listing")
+    if any(x.get("state_tree") != y.get("state_tree") for x, y in zip(a["groups"], b["groups"])):
+        out.append("state_tree")
     if a["foreign"] != b["foreign"]:
         out.append("subsets_of_no_live_group")
     if a["edit"] != b["edit"]:
